@@ -496,10 +496,10 @@ def multi_branch_result_type(P: Program, rep: Report, types: List[ClassVal], rev
     rep.floor("R11.9 branch-type triples", n, 40)
 
 
-def call_scoped_class_state(P: Program, rep: Report) -> None:
+def call_scoped_class_state(P: Program, rep: Report, rule: str = "R11.7") -> None:
     """R11.7  see sa/classstate.py"""
     from sa import classstate
-    rep.rule("R11.7", "operator classes: a class attribute assigned inside a method (cls.A = ...) is assigned on every path before the same call uses it (no type decision carried over from a previous call)")
+    rep.rule(rule, "operator classes: a class attribute assigned inside a method (cls.A = ...) is assigned on every path before the same call uses it (no type decision carried over from a previous call)")
     nm = nob = 0
     for c in sorted(P.classes.values(), key=lambda k: k.qualname):
         if not c.qualname.startswith("vtlengine.Operators."):
@@ -509,15 +509,15 @@ def call_scoped_class_state(P: Program, rep: Report) -> None:
             if k:
                 nm += 1
                 nob += k
-                rep.instance("R11.7", f"class-state/{f.qualname}", nontrivial=True, sample={"method": f.qualname, "uses_examined": k} if nm <= 3 else None)
+                rep.instance(rule, f"class-state/{f.qualname}", nontrivial=True, sample={"method": f.qualname, "uses_examined": k} if nm <= 3 else None)
             for d in fnd:
                 hole = ", ".join(f"`{g}` is {v}" for g, v in d["hole"].items()) or "unconditionally"
-                rep.add(Finding("R11.7", f"R11.7/{f.qualname}/{d['attr']}", f.module.rel, d["line"], f.qualname,
+                rep.add(Finding(rule, f"{rule}/{f.qualname}/{d['attr']}", f.module.rel, d["line"], f.qualname,
                                 f"{f.qualname} assigns the class attribute `{d['attr']}` (line(s) {d['writes']}) but line {d['line']} {d['how']} on a path where this call "
                                 f"has not assigned it ({hole}): the value used is the one left by an earlier call of the operator, so the result type depends on the call history"
                                 + (f"; guard(s) over reassigned names: {d['unstable']}" if d["unstable"] else "")))
-    rep.floor("R11.7 methods writing class state", nm, 3)
-    rep.floor("R11.7 uses examined", nob, 4)
+    rep.floor(f"{rule} methods writing class state", nm, 3)
+    rep.floor(f"{rule} uses examined", nob, 4)
 
 
 MUTATORS = {"add", "update", "pop", "popitem", "discard", "remove", "clear", "setdefault", "append", "extend", "insert",
